@@ -33,12 +33,11 @@ from ..engine.report import AnalysisError, Run
 from ..engine.resolver import ClassInfo, FuncInfo, Program
 from ..engine.util import method_call, nodes_with_call, normal_edge, u
 from ._c11_util import (MATRYOSHKA, REQ_SENDER_ATTR, ActorInterp, Flag, ResolverInterp, Sym, dataclass_fields,
-                        is_shift, lin_of, structural_controls)
+                        is_shift, lin_of, opaque_for, resolve_roles, structural_controls)
 
 ACTOR = "microgrid._power_managing._power_managing_actor:PowerManagingActor"
 MODULE = "microgrid._power_managing._power_managing_actor"
-ANCHORS = ("_calculate_target_power", "_calculate_shifted_bounds", "_send_updated_target_power",
-           "_send_reports", "_bounds_tracker")
+Roles = dict[str, FuncInfo]  # role -> the method that plays it (see _c11_util.resolve_roles)
 
 
 def _desc(out: Any) -> str:
@@ -51,11 +50,26 @@ def _is_sb(v: Any, ids: Any) -> bool:
 
 
 # =============================================================================== C11.SUM / SHIFT
-def check_calc(run: Run, prog: Program) -> None:
+def _requested_power(out: Any, ids: Any) -> tuple[bool, Any, str]:
+    """Combined mode (the computation lives in the sending method): the power of the path is what
+    is put into the one Request sent, None if nothing is sent.  -> (well-formed, power, why not)"""
+    reqs = [e for e in out.state["events"] if e["kind"] == "request"]
+    if not reqs:
+        return True, None, ""
+    r = reqs[0]["value"]
+    if len(reqs) > 1:
+        return False, None, f"{len(reqs)} requests are sent on one path"
+    if not (isinstance(r, Obj) and r.cls == "Request" and r.fields.get("component_ids") is ids):
+        return False, None, f"the request sent is `{r!r}`: not a Request for the same component ids"
+    return True, r.fields.get("power"), ""
+
+
+def check_calc(run: Run, prog: Program, roles: Roles) -> None:
     cls = prog.cls(ACTOR)
-    fn = prog.func(f"{ACTOR}._calculate_target_power")
+    fn = roles["calc"]
+    combined = fn is roles["su"]  # no separate calculator: requests are built where the sum is formed
     run.analysed(fn.qual)
-    interp = ActorInterp(prog, cls, opaque=[a for a in ANCHORS if a != "_calculate_target_power"])
+    interp = ActorInterp(prog, cls, opaque=opaque_for(roles, fn))
 
     def make_args() -> dict[str, Any]:
         kind = interp.choose(3, "proposal kind")  # 0: None, 1: regular, 2: operating point
@@ -82,6 +96,13 @@ def check_calc(run: Run, prog: Program) -> None:
             continue
         st = out.state
         stored = st["stored"]
+        if combined:
+            ok, value, why = _requested_power(out, st["inputs"].get("ids"))
+            if not ok:
+                run.violation("C11.REQ", fn.qual, "Request(power=target_power, component_ids=component_ids)",
+                              f"{why} ({desc})", node=fn.node, file=fn.file)
+                continue
+            out.value = value
         calls = [e for e in st["events"] if e["kind"] == "recalc"]
         groups_called = [c["group"] for c in calls]
         run.check(sorted(groups_called) == ["op", "reg"], "C11.SUM", fn.qual,
@@ -163,13 +184,13 @@ def stored_after(call: dict[str, Any]) -> Any:
     return call["result"] if call["result"] is not None else call["stored_before"]
 
 
-def check_shift_fn(run: Run, prog: Program) -> None:
+def check_shift_fn(run: Run, prog: Program, roles: Roles) -> None:
     """_calculate_shifted_bounds evaluated symbolically: (None shift -> same bounds), both
     inclusion bounds minus the same power, exclusion bounds passed through."""
     cls = prog.cls(ACTOR)
-    fn = prog.func(f"{ACTOR}._calculate_shifted_bounds")
+    fn = roles["shift"]
     run.analysed(fn.qual)
-    interp = ActorInterp(prog, cls, opaque=[a for a in ANCHORS if a != "_calculate_shifted_bounds"])
+    interp = ActorInterp(prog, cls, opaque=opaque_for(roles, fn))
 
     def make_args() -> dict[str, Any]:
         op = Sym("op_power") if interp.choose(2, "shift power is None") == 0 else None
@@ -393,11 +414,12 @@ def _owner_refs(prog: Program, names: set[str]) -> dict[str, set[tuple[str, str]
     return refs
 
 
-def exclusive_helpers(prog: Program, cls: ClassInfo, root: FuncInfo) -> set[str]:
+def exclusive_helpers(prog: Program, cls: ClassInfo, root: FuncInfo, roles: Roles) -> set[str]:
     """`root` plus the private, non-anchor methods of the class that are referenced only from
     `root` or from other such helpers (i.e. code that runs only as part of `root`)."""
     cands = {m.name for m in cls.methods.values() if m.name.startswith("_")
-             and not m.name.startswith("__") and m.name not in ANCHOR_NAMES}
+             and not m.name.startswith("__") and m.name not in ANCHOR_NAMES
+             and m.name not in {fi.name for fi in roles.values()}}
     if not cands:
         return {root.name}
     refs = _owner_refs(prog, cands)
@@ -413,9 +435,9 @@ def exclusive_helpers(prog: Program, cls: ClassInfo, root: FuncInfo) -> set[str]
     return allowed
 
 
-def check_req(run: Run, prog: Program) -> None:
+def check_req(run: Run, prog: Program, roles: Roles) -> None:
     cls = prog.cls(ACTOR)
-    su = prog.func(f"{ACTOR}._send_updated_target_power")
+    su = roles["su"]
     # ---- who may construct a Request / touch the requests sender: _send_updated_target_power and
     #      helpers that run only as part of it
     allowed: set[str] | None = None
@@ -430,38 +452,40 @@ def check_req(run: Run, prog: Program) -> None:
                 sites.append(("the requests sender is used", n))
         for what, n in sites:
             if m.name != su.name and allowed is None:
-                allowed = exclusive_helpers(prog, cls, su)
+                allowed = exclusive_helpers(prog, cls, su, roles)
             ok = m.name == su.name or m.name in (allowed or ())
             construct = _enclosing_call(m.node, n)
             run.check(ok, "C11.REQ", m.qual, construct,
-                      f"{what} outside _send_updated_target_power: requests must be built only "
+                      f"{what} outside {su.name}: requests must be built only "
                       "from the freshly computed target power", node=n, file=m.file)
     if n_req != 1:
         raise AnalysisError(f"C11.REQ: expected one Request construction, found {n_req}")
-    check_send_updated(run, prog, cls, su)
-    check_bounds_tracker(run, prog, cls)
-    check_reports(run, prog, cls)
-    check_run(run, prog, cls)
+    if roles["calc"] is not su:  # otherwise decided path by path together with the sum (combined mode)
+        check_send_updated(run, prog, cls, roles)
+    check_bounds_tracker(run, prog, cls, roles)
+    check_reports(run, prog, cls, roles)
+    check_run(run, prog, cls, roles)
 
 
-def check_run(run: Run, prog: Program, cls: ClassInfo) -> None:
+def check_run(run: Run, prog: Program, cls: ClassInfo, roles: Roles) -> None:
     """Event loop: whenever the target power is recomputed (proposal, retry), the reports are sent
     before the next event is taken - otherwise the request no longer equals the targets the actors
     were last told.  Decided on the CFG of _run with simple private helpers spliced in."""
-    rn = prog.func(f"{ACTOR}._run")
+    rn = roles["run"]
+    su_name, rep_name = roles["su"].name, roles["reports"].name
     run.analysed(rn.qual)
-    cfg = CFG(inline_helpers(prog, rn), rn.file)
-    ups = nodes_with_call(cfg, lambda c: method_call(c, "self", "_send_updated_target_power"))
-    reps = nodes_with_call(cfg, lambda c: method_call(c, "self", "_send_reports"))
+    cfg = CFG(inline_helpers(prog, rn, exclude=[fi.name for fi in roles.values()]), rn.file)
+    ups = nodes_with_call(cfg, lambda c: method_call(c, "self", su_name))
+    reps = nodes_with_call(cfg, lambda c: method_call(c, "self", rep_name))
     if not ups:
-        raise AnalysisError(f"{rn.qual}: no recomputation (_send_updated_target_power) found")
+        raise AnalysisError(f"{rn.qual}: no recomputation ({su_name}) found")
     heads = [n.id for n in cfg.nodes if n.kind in ("for", "while")] + [cfg.exit]
     for up in ups:
         wit = cfg.path(up, heads, avoid=reps, edge_ok=normal_edge, include_src=False)
         construct = next((c for c in ast.walk(cfg.nodes[up].ast) if isinstance(c, ast.Call)  # type: ignore[arg-type]
-                          and method_call(c, "self", "_send_updated_target_power")), cfg.nodes[up].ast)
+                          and method_call(c, "self", su_name)), cfg.nodes[up].ast)
         run.check(wit is None, "C11.REQ", rn.qual, construct,
-                  "after this recomputation the next event can be taken without _send_reports: the request "
+                  f"after this recomputation the next event can be taken without {rep_name}: the request "
                   "just sent no longer equals the targets the actors were last told",
                   node=cfg.nodes[up].ast, file=rn.file, path=cfg.describe_path(wit),
                   instance=f"reports follow the recomputation at line {cfg.nodes[up].lineno}")
@@ -477,12 +501,13 @@ def _enclosing_call(fn: ast.AST, n: ast.AST) -> ast.AST:
     return n
 
 
-def check_send_updated(run: Run, prog: Program, cls: ClassInfo, su: FuncInfo) -> None:
+def check_send_updated(run: Run, prog: Program, cls: ClassInfo, roles: Roles) -> None:
     """Symbolic run of _send_updated_target_power: the target is computed once for the very
     arguments of the call; a Request(power=<that result>, component_ids=<same ids>) is sent iff the
     result is not None."""
+    su = roles["su"]
     run.analysed(su.qual)
-    interp = ActorInterp(prog, cls, opaque=[a for a in ANCHORS if a != su.name])
+    interp = ActorInterp(prog, cls, opaque=opaque_for(roles, su))
 
     def make_args() -> dict[str, Any]:
         interp.ids = Sym("ids")
@@ -502,7 +527,7 @@ def check_send_updated(run: Run, prog: Program, cls: ClassInfo, su: FuncInfo) ->
             continue
         inp = out.state["inputs"]
         evs = out.state["events"]
-        calcs = [e for e in evs if e["kind"] == "_calculate_target_power"]
+        calcs = [e for e in evs if e["kind"] == "calc"]
         ok = len(calcs) == 1 and len(calcs[0]["args"]) >= 3 and calcs[0]["args"][0] is inp["ids"] \
             and calcs[0]["args"][1] is inp["proposal"] and calcs[0]["args"][2] is inp["must_send"]
         run.check(ok, "C11.REQ", su.qual, "target_power = self._calculate_target_power(component_ids, "
@@ -535,12 +560,12 @@ def check_send_updated(run: Run, prog: Program, cls: ClassInfo, su: FuncInfo) ->
         raise AnalysisError(f"{su.qual}: no abstract path sends a request")
 
 
-def check_bounds_tracker(run: Run, prog: Program, cls: ClassInfo) -> None:
+def check_bounds_tracker(run: Run, prog: Program, cls: ClassInfo, roles: Roles) -> None:
     """Every received bounds message is in the cache when the target is recomputed for that group
     and when the reports are sent; recomputation precedes the reports."""
-    bt = prog.func(f"{ACTOR}._bounds_tracker")
+    bt = roles["tracker"]
     run.analysed(bt.qual)
-    interp = ActorInterp(prog, cls, opaque=[a for a in ANCHORS if a != bt.name])
+    interp = ActorInterp(prog, cls, opaque=opaque_for(roles, bt))
 
     def make_args() -> dict[str, Any]:
         interp.ids = Sym("ids")
@@ -559,7 +584,7 @@ def check_bounds_tracker(run: Run, prog: Program, cls: ClassInfo) -> None:
                 segs.append([e])
             elif segs:
                 segs[-1].append(e)
-            elif e["kind"] in ("store", "_send_updated_target_power"):
+            elif e["kind"] in ("store", "su"):
                 segs.append([{"kind": "recv", "value": None}, e])
         if out.kind != "return" or len(segs) < interp.n_messages:
             run.violation("C11.REQ", bt.qual, construct,
@@ -568,8 +593,8 @@ def check_bounds_tracker(run: Run, prog: Program, cls: ClassInfo) -> None:
             continue
         for i, seg in enumerate(segs):
             msg = seg[0]["value"]
-            ups = [e for e in seg if e["kind"] == "_send_updated_target_power"]
-            reps = [e for e in seg if e["kind"] == "_send_reports"]
+            ups = [e for e in seg if e["kind"] == "su"]
+            reps = [e for e in seg if e["kind"] == "reports"]
             forks = [e for e in seg if e["kind"] == "fork"]
             end_cache = segs[i + 1][0].get("cache", {}) if i + 1 < len(segs) else out.state["cache"]
             why = ""
@@ -599,13 +624,13 @@ def check_bounds_tracker(run: Run, prog: Program, cls: ClassInfo) -> None:
                       instance=f"message {msg!r}: stored before recomputation before reports: {desc}")
 
 
-def check_reports(run: Run, prog: Program, cls: ClassInfo) -> None:
+def check_reports(run: Run, prog: Program, cls: ClassInfo, roles: Roles) -> None:
     """Symbolic run of _send_reports: operating-point subscribers get a status computed in the
     cached system bounds, regular subscribers in those bounds shifted by the operating-point
     group's current target."""
-    sr = prog.func(f"{ACTOR}._send_reports")
+    sr = roles["reports"]
     run.analysed(sr.qual)
-    interp = ActorInterp(prog, cls, opaque=[a for a in ANCHORS if a != sr.name])
+    interp = ActorInterp(prog, cls, opaque=opaque_for(roles, sr))
 
     def make_args() -> dict[str, Any]:
         interp.ids = Sym("ids")
@@ -699,11 +724,12 @@ CONTROLS = [
 
 
 def run_rules(run: Run, prog: Program) -> None:
-    check_calc(run, prog)
+    roles = resolve_roles(prog, prog.cls(ACTOR))
+    check_calc(run, prog, roles)
     check_resolver(run, prog)
     check_reported_target(run, prog)
-    check_shift_fn(run, prog)
-    check_req(run, prog)
+    check_shift_fn(run, prog, roles)
+    check_req(run, prog, roles)
 
 
 def check(run: Run, prog: Program, tier: str) -> str:
